@@ -22,7 +22,8 @@ def run_dial_task():
     def m_hs(ex, p, call, k):
         p.events.append(Event('handshake', 'handshake', (ex.deref(p, call.args[0]),)))      # by value or by reference
         k(p, Sym('hs_future', 'HandshakeFuture'))
-    ex = e2.executor('anemo', [(r'Endpoint::connect(_with_expected_peer_id)?$', m_connect), (r'(^|::)handshake$', m_hs)] + timeout_models(), max_depth=5)
+    ex = e2.executor('anemo', [(r'Endpoint::connect(_with_expected_peer_id)?$', m_connect), (r'(^|::)handshake$', m_hs),
+                                   (r'^<(endpoint::)?Connecting as Future>::poll$', MD.m_poll_opaque)] + timeout_models(), max_depth=5)
     parent = find_method(ex.prog, 'ConnectionManager', 'dial_peer_task')
     fn = find_closure(ex.prog, parent, [0])
     p, args = coroutine_start(ex, fn)
